@@ -4,6 +4,6 @@
 set -e
 cd "$(dirname "$0")"
 mkdir -p out evidence
-/venv/bin/python harness/gen_tables.py
+for f in harness/gen_tables*.py; do /venv/bin/python "$f"; done
 cd lean
 lake build
